@@ -1,5 +1,7 @@
 import Hertz.Proofs.Conn
 import Hertz.Proofs.ConnCtl
+import Hertz.Proofs.ConnMemRel
+import Hertz.Proofs.ConnMemRefine
 /-!
 # C13 — the buffered connection behaves as a lossless FIFO byte stream
 
@@ -317,5 +319,244 @@ example :
   decide +kernel
 
 example : WInv Writer.new := WInv_new
+
+/-! ## memory level (`Model/ConnMem.lean`): blocks, references, the allocator, the caller
+
+The bytes now live in a heap of memory blocks; nodes hold `(blk, base, cap, malloc, off)`, slices handed to the caller are
+references `(blk, lo, hi)`; `mcache.Malloc` may return *any* previously freed block of the same capacity class (every
+statement quantifies over the allocator's choices `ch`), the allocator may overwrite free blocks at any time
+(`CStep.scribble`), the caller may write into its own buffers and into slices reserved by `Malloc` (`CStep.callerWrite`,
+`.fillRef`).  Lemmas: `Proofs/ConnMem.lean`, `Proofs/ConnMemInv.lean`, `Proofs/ConnMemSys.lean`, `Proofs/ConnMemRel.lean`. -/
+
+open Hertz.ConnMem
+
+/-- Ownership holds in every state a connection can reach: after any sequence of reader operations (releasing ones
+included), writer operations, caller writes and allocator activity, with any allocator choices, the blocks held by the
+reader (chain, `caches`, private peek copies), by the writer, by the caller and by the allocator's free list are pairwise
+distinct — no live block is ever on the free list, no block is held twice — and a by-reference output node points into
+caller memory.  (`LegalAny`: the caller passes only its own buffers to `WriteBinary` and fills only slices it reserved
+and has not flushed.) -/
+theorem ownership_invariant (size : Nat) (wire : Wire) (sc : WScript) (steps : List CStep)
+    (hl : LegalAny (MConn.new size) wire sc steps) (outs : List COut) (c' : MConn) (w' : Wire) (sc' : WScript)
+    (h : crun (MConn.new size) wire sc steps = .ok (outs, c', w', sc')) : Good c' :=
+  crun_good _ _ _ _ (Good_new size) hl _ _ _ _ h
+
+/-- non-vacuity: a run with a peek, a release and a flush, all legal -/
+example : LegalAny (MConn.new 0) [.data [1, 2, 3] none] [] [.rd (.peek 2) 0 0, .rd .release 0 0, .reserve 4 0, .flush] :=
+  ⟨trivial, fun _ _ _ _ _ => ⟨trivial, fun _ _ _ _ _ => ⟨trivial, fun _ _ _ _ _ => ⟨trivial, fun _ _ _ _ _ => trivial⟩⟩⟩⟩
+
+/-- Between a `Peek` and the next `Release` / `Read`, NO step of the system writes into the referenced region: after the
+`Peek` that returned the slice `ref = (blk, lo, hi)`, any sequence of non-releasing reader operations (`fill`s, further
+`Peek`s — which may allocate, recycling any freed block —, `Skip`, `ReadByte`, `ReadBinary`, `Len`), writer operations
+(`Malloc`, `WriteBinary`, `Flush` — which frees blocks), caller writes into its own memory and allocator scribbling over
+free memory leaves `heap[blk][lo:hi]` exactly as it was — for every allocator choice.  `Good c` holds in every reachable
+state (`ownership_invariant`). -/
+theorem peeked_ref_stable_mem (c : MConn) (hG : Good c) (wire : Wire) (sc : WScript) (n ch1 ch2 : Nat)
+    (o : COut) (c1 : MConn) (w1 : Wire) (sc1 : WScript)
+    (h : cstep c wire sc (.rd (.peek n) ch1 ch2) = .ok (o, c1, w1, sc1)) (ref : ConnMem.Ref) (href : o.ref = some ref)
+    (steps : List CStep) (outs : List COut) (c2 : MConn) (w2 : Wire) (sc2 : WScript)
+    (hl : Legal c1 w1 sc1 steps) (hr : crun c1 w1 sc1 steps = .ok (outs, c2, w2, sc2)) :
+    c2.mem.heap.read ref = c1.mem.heap.read ref := by
+  have hG1 := (cstep_ok c wire sc _ hG (show CStep.legal c (.rd (.peek n) ch1 ch2) from rfl) o c1 w1 sc1 h).1
+  have hF := (crun_ok c1 w1 sc1 steps hG1 hl outs c2 w2 sc2 hr).2
+  -- the reference lies in protected cells of `c1`
+  have hP : ∀ k, ref.lo ≤ k → k < ref.hi → ProtR c1.r ref.blk k := by
+    simp only [cstep, mstep] at h
+    cases hp : mpeek c.mem c.r wire n ch1 ch2 with
+    | error f => simp [hp, bind, Except.bind] at h
+    | ok r =>
+      obtain ⟨p, e, m1, r1, w1'⟩ := r
+      obtain ⟨pb, pr⟩ := p
+      have hpr := fun rf => mpeek_ref_prot c.mem c.r wire n ch1 ch2 pb rf e m1 r1 w1'
+      simp only [hp, bind, Except.bind, pure, Except.pure] at h; cases h
+      simp only at href; subst href
+      exact hpr ref hp
+  exact slice_congr _ _ _ _ (fun k h1 h2 => (hF ref.blk k (hP k h1 h2)).2)
+
+/-- non-vacuity: a peek on a fresh connection; then a further peek that reads the wire into the same block, a reserve and
+a scribble are legal, and the run exists -/
+example :
+    (do let (o, c1, w1, s1) ← cstep (MConn.new 0) [.data [1, 2, 3] none, .data [4] none] [] (.rd (.peek 2) 0 0)
+        let (_, c2, _, _) ← crun c1 w1 s1 [.rd (.peek 4) 0 0, .reserve 8 0, .scribble 9, .rd (.skip 1) 0 0]
+        pure (o.ref, o.ref.map c1.mem.heap.read, o.ref.map c2.mem.heap.read)).toOption
+      = some (some ⟨0, 0, 2⟩, some [1, 2], some [1, 2]) := by
+  decide +kernel
+
+example : Good (MConn.new 8192) := Good_new 8192
+
+/-- The same from a fresh connection: `c` is any state reached by any legal history (releasing operations included). -/
+theorem peeked_ref_stable_from_new (size : Nat) (wire0 : Wire) (sc0 : WScript) (steps0 : List CStep)
+    (hl0 : LegalAny (MConn.new size) wire0 sc0 steps0) (outs0 : List COut) (c : MConn) (wire : Wire) (sc : WScript)
+    (h0 : crun (MConn.new size) wire0 sc0 steps0 = .ok (outs0, c, wire, sc)) (n ch1 ch2 : Nat)
+    (o : COut) (c1 : MConn) (w1 : Wire) (sc1 : WScript)
+    (h : cstep c wire sc (.rd (.peek n) ch1 ch2) = .ok (o, c1, w1, sc1)) (ref : ConnMem.Ref) (href : o.ref = some ref)
+    (steps : List CStep) (outs : List COut) (c2 : MConn) (w2 : Wire) (sc2 : WScript)
+    (hl : Legal c1 w1 sc1 steps) (hr : crun c1 w1 sc1 steps = .ok (outs, c2, w2, sc2)) :
+    c2.mem.heap.read ref = c1.mem.heap.read ref :=
+  peeked_ref_stable_mem c (ownership_invariant size wire0 sc0 steps0 hl0 outs0 c wire sc h0) wire sc n ch1 ch2 o c1 w1 sc1 h
+    ref href steps outs c2 w2 sc2 hl hr
+
+/-- The reader's non-releasing operations and the allocator never write into a block of the writer or of the caller:
+reserved slices and buffers handed to `WriteBinary` keep their contents across them (so "the memory `Flush` sends" of
+`reserved_ref_stable_until_flush` is only ever changed by the caller itself). -/
+theorem writer_memory_untouched_by_reader (c : MConn) (wire : Wire) (sc : WScript) (st : CStep) (hG : Good c)
+    (hst : (∃ op ch1 ch2, st = .rd op ch1 ch2 ∧ op.keeps = true) ∨ (∃ pat, st = .scribble pat))
+    (o : COut) (c' : MConn) (w' : Wire) (sc' : WScript) (h : cstep c wire sc st = .ok (o, c', w', sc')) :
+    ∀ b ∈ c.wr.own ++ c.caller, c'.mem.heap.get b = c.mem.heap.get b :=
+  writer_memory_untouched c wire sc st hG hst o c' w' sc' h
+
+/-- non-vacuity: a peek step on a good state -/
+example : (∃ op ch1 ch2, CStep.rd (.peek 3) 0 0 = .rd op ch1 ch2 ∧ op.keeps = true) ∨ (∃ pat, CStep.rd (.peek 3) 0 0 = .scribble pat) :=
+  Or.inl ⟨_, _, _, rfl, rfl⟩
+
+/-- The boundary of the contract: after `Release` the same region CAN be overwritten.  `Peek(3)` returns block 0 `[0:3]`
+reading `[1,2,3]`; after `Skip(3)`, `Release` (which resets the only node) and the next `Peek(3)` the region reads `[4,5,6]`. -/
+theorem released_block_may_be_reused :
+    (do let (o, c1, w1, s1) ← cstep (MConn.new 0) [.data [1, 2, 3] none, .data [4, 5, 6] none] [] (.rd (.peek 3) 0 0)
+        let (_, c2, _, _) ← crun c1 w1 s1 [.rd (.skip 3) 0 0, .rd .release 0 0, .rd (.peek 3) 0 0]
+        pure (o.ref, o.ref.map c1.mem.heap.read, o.ref.map c2.mem.heap.read)).toOption
+      = some (some ⟨0, 0, 3⟩, some [1, 2, 3], some [4, 5, 6]) := by
+  decide +kernel
+
+/-- … and through `mcache`: a 4 KiB head node freed by `Release` comes back as the new tail node when the allocator
+chooses so (`ch = 0`: the freed block; `ch = 1`: a fresh one), and the next `fill` stores new bytes over the slice
+peeked before the `Release`. -/
+theorem released_block_may_be_reused_by_mcache :
+    (fun ch =>
+      (do let wire : Wire := [.data (List.replicate 4096 1) none, .data (List.replicate 4096 2) none, .data (List.replicate 4096 3) none]
+          let (o, c1, w1, s1) ← cstep (MConn.new 0) wire [] (.rd (.peek 4096) 0 0)
+          let (_, c2, _, _) ← crun c1 w1 s1 [.rd (.peek 4097) 0 0, .rd (.skip 4097) 0 0, .rd .release 0 0, .rd (.peek 4096) ch 0]
+          pure (o.ref, (o.ref.map c1.mem.heap.read).map (List.take 2), (o.ref.map c2.mem.heap.read).map (List.take 2))).toOption) 0
+      = some (some ⟨0, 0, 4096⟩, some [1, 1], some [3, 3]) := by
+  decide +kernel
+
+/-- A `Flush` that returns nil handed the peer, for every node of the output chain in order, the cells the node refers to
+*as they are when `Flush` runs* (the model reads the heap at that moment, as the `Write` call does). -/
+theorem flush_sends_memory_at_flush_time (m : Mem) (s : MWriter) (sc : WScript) (hok : (mwFlush m s sc).1 = false) :
+    (mwFlush m s sc).2.1 = s.pendingRefs.flatMap m.heap.read :=
+  (mwFlush_spec m s sc hok).1
+
+/-- `WriteBinary(b)` with `len(b) ≥ block4k` keeps a REFERENCE to `b`: whatever the memory holds when the next
+successful `Flush` runs (`h'` is arbitrary: the caller may have rewritten `b` in between), the peer gets what was pending
+before, followed by the contents of `b` AT FLUSH TIME. -/
+theorem write_by_reference_contract (m : Mem) (s : MWriter) (r : ConnMem.Ref) (ch : Nat) (hbig : block4k ≤ r.len) :
+    ∃ m1 s1, mwWriteBinary m s r ch = .ok (r.len, m1, s1) ∧
+      ∀ (h' : Heap) (sc : WScript), (mwFlush { m1 with heap := h' } s1 sc).1 = false →
+        (mwFlush { m1 with heap := h' } s1 sc).2.1 = s.pendingRefs.flatMap h'.read ++ h'.read r := by
+  obtain ⟨m1, s1, h1, h2⟩ := mwWriteBinary_big m s r ch hbig
+  refine ⟨m1, s1, h1, fun h' sc hok => ?_⟩
+  rw [(mwFlush_spec _ s1 sc hok).1, h2]; simp
+
+/-- witness: the caller reuses a 4096-byte buffer between `WriteBinary` and `Flush` — the wire carries the NEW byte … -/
+theorem write_by_reference_mutation_reaches_wire :
+    (do let (o, c1, _, _) ← cstep (MConn.new 0) [] [] (.newBuf (List.replicate 4096 7))
+        let r := o.ref.getD ⟨0, 0, 0⟩
+        let (outs, _, _, _) ← crun c1 [] [] [.writeBinary r 0, .callerWrite r.blk 0 [9], .flush]
+        pure (outs.map (fun (o : COut) => o.sent.take 2))).toOption = some [[], [], [9, 7]] := by
+  decide +kernel
+
+/-- … while below the threshold the bytes were copied at the call: the wire carries the contents at CALL time. -/
+theorem small_write_is_copied :
+    (do let (o, c1, _, _) ← cstep (MConn.new 0) [] [] (.newBuf [7, 7, 7])
+        let r := o.ref.getD ⟨0, 0, 0⟩
+        let (outs, _, _, _) ← crun c1 [] [] [.writeBinary r 0, .callerWrite r.blk 0 [9], .flush]
+        pure (outs.map (fun (o : COut) => o.sent))).toOption = some [[], [], [7, 7, 7]] := by
+  decide +kernel
+
+/-- The copy half of the contract, for every state: `WriteBinary(b)` with `0 < len(b) < block4k` copies — the destination
+`d` is a slice of the output chain (hence what `Flush` sends, see `reserved_ref_stable_until_flush`), lies in a block of the
+writer or (never, in fact) the caller's, and right after the call holds the contents `b` had AT CALL TIME; the chain holds no
+reference to `b`.  Hypotheses besides `Good` (true in every reachable state, `ownership_invariant`): `b` is a valid slice
+of a caller block, and three length facts — the tail node fits its block, `off ≤ malloc`, free blocks are as long as their
+recorded capacity — that hold in every reachable state but are assumed here (see TODO-OPEN). -/
+theorem write_copy_contract (c : MConn) (hG : Good c) (r : ConnMem.Ref) (ch n : Nat) (m1 : Mem) (wr1 : MWriter)
+    (hr : r.blk ∈ c.caller) (hpos : 0 < r.len) (hs : r.len < block4k) (hv : r.hi ≤ (c.mem.heap.get r.blk).length)
+    (hfit : c.wr.w.base + c.wr.w.cap ≤ (c.mem.heap.get c.wr.w.blk).length) (hoff : c.wr.w.off ≤ c.wr.w.malloc)
+    (hfree : ∀ e ∈ c.mem.free, (c.mem.heap.get e.1).length = e.2)
+    (h : mwWriteBinary c.mem c.wr r ch = .ok (n, m1, wr1)) :
+    ∃ d, Covered wr1 d ∧ d.len = r.len ∧ d.blk ∈ wr1.own ++ c.caller ∧ m1.heap.read d = c.mem.heap.read r :=
+  mwWriteBinary_small_copy c hG r ch n m1 wr1 hr hpos hs hv hfit hoff hfree h
+
+/-- non-vacuity: all hypotheses of `write_copy_contract` hold in the state after the caller made a 3-byte buffer -/
+example : ∀ o c w sc, cstep (MConn.new 0) [] [] (.newBuf [7, 7, 7]) = .ok (o, c, w, sc) →
+    Good c ∧ 2 ∈ c.caller ∧ 3 ≤ (c.mem.heap.get 2).length ∧
+    c.wr.w.base + c.wr.w.cap ≤ (c.mem.heap.get c.wr.w.blk).length ∧ c.wr.w.off ≤ c.wr.w.malloc ∧
+    (∀ e ∈ c.mem.free, (c.mem.heap.get e.1).length = e.2) := by
+  intro o c w sc h
+  have hG := (cstep_ok _ _ _ (.newBuf [7, 7, 7]) (Good_new 0) trivial o c w sc h).1
+  simp only [cstep, pure, Except.pure] at h; cases h
+  exact ⟨hG, by decide +kernel, by decide +kernel, by decide +kernel, by decide +kernel, by decide +kernel⟩
+
+/-- `off ≤ malloc` holds for the tail node of the output chain in every state a connection reaches (any steps, legal or
+not): this discharges the hypothesis `hoff` of `write_copy_contract` and of `reserved_ref_stable_until_flush`. -/
+theorem tail_off_le_malloc (size : Nat) (wire : Wire) (sc : WScript) (steps : List CStep)
+    (outs : List COut) (c' : MConn) (w' : Wire) (sc' : WScript)
+    (h : crun (MConn.new size) wire sc steps = .ok (outs, c', w', sc')) : c'.wr.w.off ≤ c'.wr.w.malloc :=
+  crun_woff _ _ _ _ (Nat.le_refl 0) _ _ _ _ h
+
+/-- non-vacuity: such a run, ending in a flushed, non-recyclable tail node with `off = malloc = 4096` -/
+example :
+    (do let (o, c1, _, _) ← cstep (MConn.new 0) [] [] (.newBuf (List.replicate 4096 7))
+        let (_, c2, _, _) ← crun c1 [] [] [.writeBinary (o.ref.getD ⟨0, 0, 0⟩) 0, .flush]
+        pure (c2.wr.w.off, c2.wr.w.malloc)).toOption = some (4096, 4096) := by
+  decide +kernel
+
+/-- A slice reserved by `Malloc` stays the memory `Flush` sends: the reservation lies in the unsent part of a node of
+the output chain (`Covered`), later `Malloc` / `WriteBinary` calls (any sizes, any allocator choices) keep it there, and a
+successful `Flush` hands the peer the cells of the reservation as they are at flush time (so a caller that fills the
+slice after further writes, but before `Flush`, gets its bytes onto the wire). -/
+theorem reserved_ref_stable_until_flush :
+    (∀ (m : Mem) (s : MWriter) (n ch : Nat) (d : ConnMem.Ref) (m1 : Mem) (s1 : MWriter), s.w.off ≤ s.w.malloc →
+        mwReserve m s n ch = .ok (some d, m1, s1) → Covered s1 d ∧ d.len = n) ∧
+    (∀ (m : Mem) (s : MWriter) (n ch : Nat) (o : Option ConnMem.Ref) (m1 : Mem) (s1 : MWriter) (d : ConnMem.Ref),
+        Covered s d → mwReserve m s n ch = .ok (o, m1, s1) → Covered s1 d) ∧
+    (∀ (m : Mem) (s : MWriter) (r : ConnMem.Ref) (ch n : Nat) (m1 : Mem) (s1 : MWriter) (d : ConnMem.Ref),
+        Covered s d → mwWriteBinary m s r ch = .ok (n, m1, s1) → Covered s1 d) ∧
+    (∀ (m : Mem) (s : MWriter) (sc : WScript) (d : ConnMem.Ref), Covered s d → (mwFlush m s sc).1 = false →
+        ∃ a b, (mwFlush m s sc).2.1 = a ++ m.heap.read d ++ b) :=
+  ⟨fun m s n ch d m1 s1 ho h => mwReserve_covered m s n ch d m1 s1 ho h,
+   fun m s n ch o m1 s1 d hc h => mwReserve_keeps m s n ch o m1 s1 d hc h,
+   fun m s r ch n m1 s1 d hc h => mwWriteBinary_keeps m s r ch n m1 s1 d hc h,
+   fun m s sc d hc hok => by rw [(mwFlush_spec m s sc hok).1]; exact covered_sent s d m.heap hc⟩
+
+/-- non-vacuity: reserve 2 bytes, write more, fill the reservation late, flush: the late bytes are on the wire -/
+example :
+    (do let (o, c1, _, _) ← cstep (MConn.new 0) [] [] (.reserve 2 0)
+        let r := o.ref.getD ⟨0, 0, 0⟩
+        let (o2, c2, _, _) ← cstep c1 [] [] (.newBuf [5, 5, 5])
+        let (outs, _, _, _) ← crun c2 [] [] [.writeBinary (o2.ref.getD ⟨0, 0, 0⟩) 0, .fillRef r [8, 9], .flush]
+        pure (outs.map (fun (o : COut) => o.sent))).toOption = some [[], [], [8, 9, 5, 5, 5]] := by
+  decide +kernel
+
+/-- After a `Flush` that returned nil the writer reads nothing any more through the references it still holds: whatever
+the memory holds later (`h'` arbitrary), nothing of it is pending — the caller may reuse its buffers. -/
+theorem flush_clears_references (m : Mem) (s : MWriter) (sc : WScript) (hok : (mwFlush m s sc).1 = false) (h' : Heap) :
+    (mwFlush m s sc).2.2.2.1.pendingRefs.flatMap h'.read = [] :=
+  mwFlush_clears m s sc hok h'
+
+/-- non-vacuity: a successful flush of a by-reference node -/
+example :
+    (do let (o, c1, _, _) ← cstep (MConn.new 0) [] [] (.newBuf (List.replicate 4096 7))
+        let (outs, c2, _, _) ← crun c1 [] [] [.writeBinary (o.ref.getD ⟨0, 0, 0⟩) 0, .flush]
+        pure (outs.map (fun (o : COut) => (o.failed, o.sent.length)), c2.wr.pendingRefs.map ConnMem.Ref.len)).toOption
+      = some ([(false, 0), (false, 4096)], [0]) := by
+  decide +kernel
+
+/-
+TODO-OPEN (memory level)
+
+* `mem_refines_list_model` — erasing the heap (`MReader.view`, `MWriter.view`: a node's `data` is
+  `heap[blk][base : base+malloc]`, logical ids kept) commutes with every operation, so that every run of `mstep` projects
+  onto the run of `step` of `Model/Conn.lean` for every allocator choice — is NOT proved.  It is checked per case: the driver
+  (`Driver/C13m.lean`) runs both models on every `c13m` case and compares all reader outputs (token `!MODEL-REFINE` on a
+  difference), and re-reads every protected reference and every peek result from the model heap (`!MODEL-STALE`).
+  What is proved instead, directly on the memory model: `ownership_invariant`, `peeked_ref_stable_mem` and the writer
+  contract theorems above.
+* the length bookkeeping "a block is as long as the capacity recorded for it, `off ≤ malloc ≤ cap`" is not proved as an
+  invariant of reachable states (block lengths never change: `splice_length`; groundwork `LInv`, `alloc_len` in
+  `Proofs/ConnMemRefine.lean`).  It appears as hypotheses `hfit`, `hfree` of `write_copy_contract` (`hoff` there and in
+  `reserved_ref_stable_until_flush` IS discharged for reachable states: `tail_off_le_malloc`); the driver's per-case
+  contract acceptor covers the same ground on the real code.
+-/
 
 end Hertz.Props.C13
